@@ -21,7 +21,7 @@ CLAIMED = {
          'Bounded: stores of <= 3 (4) entities. Trusted: concrete-key models of std HashMap/HashSet/Vec/Range/sort_by with insertion-order iteration (mir2smt/containers.py); node = id + row of edge bits. Outside: larger stores, EntityUID hashing/equality, order-dependent behaviour under other hash orders.', '4 C04'),
  'C11': ('schema conformance per node / loop element: ValidatorSchema::{validate_request, validate_scope_variables, validate_context}, EntitySchemaConformanceChecker::{validate_entity, validate_entity_attributes, validate_entity_ancestors, validate_tags, validate_action}, validate_euid, is_valid_enumerated_entity, validate_euids_in_subexpressions, typecheck_restricted_expr_against_schematype and Type::typecheck_restricted_expr for every (type kind, value kind) with <= 2 members and arbitrary member verdicts, and the core entry points (Entities::{add,upsert,from}_entities, single_from_ejson, Request::{new,new_with_unknowns}): accept exactly when every requirement holds',
          'Trusted: schema look-ups as arbitrary-answer stubs (that the schema object answers correctly is only exercised natively), name/type equality as free booleans, small-container models for HashMap/BTreeMap/iterator adaptors. Outside: JSON parsing and schema-directed coercion, TPE entry points, correctness of CoreSchema/EntityTypeDescription construction.', '4 C11'),
- 'C15': ('driver of batched authorization (batched_evaluator.rs): request conversion; the loop for budgets 0..3 with <= 2 residual policies over <= 3 entity ids and everything the residuals say symbolic - the loader is asked for exactly the not-yet-known ids the residuals mention, every answer is recorded (absent entities as attribute-less ones), every residual is re-evaluated against the updated store, at most `budget` loader calls, early exit only when no residual is partial, result = decision of the TPE response or `insufficient iterations`; ResidualKind::all_literal_uids per node kind (union over all children)',
+ 'C15': ('driver of batched authorization (batched_evaluator.rs): request conversion; the loop for budgets 0..3 with <= 2 residual policies over <= 3 entity ids and everything the residuals say symbolic - the loader is asked only for not-yet-known ids the residuals mention, and for at least one while there is one, every answer is recorded (absent entities as attribute-less ones), every residual is re-evaluated against the updated store, at most `budget` loader calls, early exit only when no residual is partial, result = decision of the TPE response or `insufficient iterations`; ResidualKind::all_literal_uids per node kind (union over all children)',
          'Trusted / outside: tpe::Evaluator::interpret, policy_residual_map, PartialEntities::*, tpe::Response::{new,decision} (C14) and the loader are environment stubs - that a residual keeps the meaning of its policy is NOT decided, only exercised by a native battery (16 scenarios x 8 budgets: batched vs ordinary authorization, monotone in the budget, decision above the number of distinct ids).', '4 C15'),
  'C16': ('level checker: per-node level calculus of check_expr_level / check_entity_deref_target_level (every node kind, arbitrary child levels and maximum): every child visited with the right access path, dereferences report `maximum level exceeded` iff target level >= max (=> monotone in the maximum), +1 for entity attribute access and getTag, max over if-branches, non-action literals rejected',
          'Trusted: recursive calls as arbitrary levels; Expr::data annotation as entity/record/other. The RFC-76 induction from the per-node calculus to slice sufficiency is a paper argument and NOT decided; record-literal access-path lookup and the loop over request environments are outside.', '4 C16'),
